@@ -63,6 +63,8 @@ type Payload struct {
 	Src   string `json:"src,omitempty"`
 	Shape string `json:"shape,omitempty"` // e.g. "bin:int / int"
 	Want  string `json:"want,omitempty"`  // expected dynamic kind of the probed result ("" = unknown)
+	// TreeOnly: run on the interpreter only (constructs the VM does not implement: captured variables)
+	TreeOnly bool `json:"tree_only,omitempty"`
 	// limits sweep
 	Gen       *c01.Payload        `json:"gen,omitempty"`
 	Limits    *runtime.CoreLimits `json:"limits,omitempty"`
@@ -285,6 +287,9 @@ func (c02) Run(c fw.Case) fw.Result {
 		res.Verdict = fw.Violated
 		res.Sig = "tree:" + tr.Outcome.Class + ":" + p.Shape + ":" + util.NormPanic(tr.Outcome.Message)
 		res.Why = fmt.Sprintf("interpreter: %s for %s\n%s", tr.Outcome, p.Shape, p.Src)
+	}
+	if p.TreeOnly {
+		return res
 	}
 	ao = drive.Analyze(src, "main", true)
 	vm := drive.RunVM(ao.Modules, src, "main", drive.VMOpts{StepBudget: 2_000_000})
